@@ -10,7 +10,8 @@
           out_of_range although the sum is representable *)
 From BS Require Import Base ChronoSpec ChronoModel ChronoArith ChronoDecimal ChronoSweep ChronoCalendar ChronoYear
   ChronoSafe ChronoSafeAdd ChronoText ChronoTp ChronoTpParse ChronoTpRt ChronoTs ChronoRefute
-  ChronoDur ChronoDurPrint ChronoDurParse ChronoDurRt ChronoClassify ChronoClassify2 ChronoClassify3 ChronoDurClassify ChronoReject ChronoTotal ChronoDurReject ChronoProps.
+  ChronoDur ChronoDurPrint ChronoDurParse ChronoDurRt ChronoClassify ChronoClassify2 ChronoClassify3 ChronoDurClassify ChronoReject ChronoTotal ChronoDurReject ChronoWide ChronoProps.
+From BS Require Import UtfSpec UtfModel.
 Local Open Scope Z_scope.
 
 (* ---- ParseSecondFractions: exact for every fraction of 1..9 digits (the double integer division
@@ -254,6 +255,24 @@ Theorem T_C15_dur_class_fine : forall P f, pnum P = 1 ->
 Proof. exact dur_split_fine. Qed.
 Print Assumptions T_C15_dur_class_fine.
 
+(* ---- uint64 durations (all seven precisions): a text of the grammar without a minus sign is classified exactly as for
+        the signed representations (same class dur_split, magnitudes up to 2^64-1); with a minus sign it is
+        out_of_range at once — also "-PT0S", whose value zero is representable (by design: the sign is refused, not
+        the value). ---- *)
+Theorem T_C15_dur_classify_u64 : forall P f, df_wf f -> df_neg f = false -> dur_split P f = false ->
+  dur_parse P U64 (df_render f) = dur_expected P U64 f.
+Proof. exact c15_dur_classify_u64. Qed.
+Print Assumptions T_C15_dur_classify_u64.
+
+Theorem T_C15_dur_value_or_range_u64 : forall P f, df_wf f -> df_neg f = false ->
+  dur_parse P U64 (df_render f) = dur_expected P U64 f \/ dur_parse P U64 (df_render f) = Err OutOfRange.
+Proof. exact c15_dur_value_or_range_u64. Qed.
+Print Assumptions T_C15_dur_value_or_range_u64.
+
+Theorem T_C15_dur_neg_u64 : forall P f, df_wf f -> df_neg f = true -> dur_parse P U64 (df_render f) = Err OutOfRange.
+Proof. exact c15_dur_neg_u64. Qed.
+Print Assumptions T_C15_dur_neg_u64.
+
 (* ---- T_C15_dur_classify, second half (texts OUTSIDE the grammar).  dur_loose (ChronoDurReject.v) describes, without
         the parser, the class of K42 together with the grammar: optional sign, 'P', then components (digits of any
         length and the unit letter of the section: W D before 'T', H M S after it; the seconds may carry a fraction),
@@ -288,6 +307,40 @@ Theorem T_C15_dur_malformed : forall P R, Forall (fun s => dur_parse P R s = Err
 Proof. exact dur_malformed_rejected. Qed.
 Print Assumptions T_C15_dur_malformed.
 
+(* ---- T_C15_wide: the char16_t / char32_t (wchar_t) entry points.  The model mirrors the code: Utf8::Encode of the
+        input with the default policy (ill-formed sequences replaced by the mark), then the char parser
+        (tp_parse_wide w P R units = tp_parse P R (narrow w units), ChronoModel.v; correspondence by the tp.parse16 /
+        tp.parse32 / dur.parse16 / dur.parse32 cases).  With C11 (transcode of well-formed text is exact): the wide
+        entry point on the UTF-16 / UTF-32 form of a text is the char entry point on its UTF-8 form; hence the same
+        result in every width; ASCII text (all texts of both grammars) is parsed as it is; and for ANY code units the
+        totality theorems hold. ---- *)
+Theorem T_C15_wide_exact : forall w P R cps, Forall scalar cps ->
+  tp_parse_wide w P R (encs w cps) = tp_parse P R (encs W8 cps) /\
+  dur_parse_wide w P R (encs w cps) = dur_parse P R (encs W8 cps).
+Proof. exact c15_wide_exact. Qed.
+Print Assumptions T_C15_wide_exact.
+
+Theorem T_C15_width_independent : forall w1 w2 P R cps, Forall scalar cps ->
+  tp_parse_wide w1 P R (encs w1 cps) = tp_parse_wide w2 P R (encs w2 cps) /\
+  dur_parse_wide w1 P R (encs w1 cps) = dur_parse_wide w2 P R (encs w2 cps).
+Proof. exact c15_width_independent. Qed.
+Print Assumptions T_C15_width_independent.
+
+Theorem T_C15_wide_ascii : forall w P R s, Forall (fun u => (u < 0x80)%N) s ->
+  tp_parse_wide w P R s = tp_parse P R s /\ dur_parse_wide w P R s = dur_parse P R s.
+Proof. exact c15_wide_ascii. Qed.
+Print Assumptions T_C15_wide_ascii.
+
+Theorem T_C15_wide_total : forall w P R units,
+  (c14_rep P R ->
+     tp_parse_wide w P R units = Err InvalidArgument \/ tp_parse_wide w P R units = Err OutOfRange \/
+     exists v, tp_parse_wide w P R units = Ok v /\ fits R v = true) /\
+  (rep2 R ->
+     dur_parse_wide w P R units = Err InvalidArgument \/ dur_parse_wide w P R units = Err OutOfRange \/
+     exists v, dur_parse_wide w P R units = Ok v /\ fits R v = true /\ dur_loose (narrow w units)).
+Proof. exact c15_wide_total. Qed.
+Print Assumptions T_C15_wide_total.
+
 (* ======================================================================================================
    NOT PROVED (kept here at full strength; nothing below is claimed by the obligations above)
 
@@ -303,9 +356,11 @@ Print Assumptions T_C15_dur_malformed.
      UB (T_C15_dur_total / T_C15_dur_outside_shape), and invalid_argument for the 61 texts of T_C15_dur_malformed.
      Not done: the exact description of the texts with out_of_range-before-invalid_argument (it depends on P and R),
      and tightness of dur_loose (every text of the shape gives a value or out_of_range).
-     Negative texts into unsigned targets (out_of_range by the first check) are outside rep2 and not stated.
+     uint64 targets: the grammar half is T_C15_dur_classify_u64 / T_C15_dur_neg_u64; the totality theorem
+     T_C15_dur_total is stated for int64 / int32 only.
 
    Representation domains: int8_t targets are outside T_C15_round, T_C15_tp_classify_outside, T_C15_dur_classify_outside and the two _total theorems (K48); uint64
    time points (the parser computes the day number in int64, so uint64 day counts above 2^63 are reported
-   out_of_range), time_t / tm / char16_t / char32_t targets and inputs: correspondence only.
+   out_of_range): correspondence only.  tm / CRawTime: Properties_C14 (T_C14_tm_roundtrip, T_C14_tm_print_total, T_C14_raw_time); wide OUTPUT
+   strings (out.append(buf, pos) of the ASCII buffer) are not modelled.
    ====================================================================================================== *)
